@@ -36,3 +36,30 @@ def user_event_table(F, hue):
             row['outcomes'].add(tuple(names))
         out[k] = row
     return out
+
+
+_SUBRUNS = {}
+
+
+def import_obligations(ctx, prop, select, rule, why):
+    """Several properties depend on the same structural fact (e.g. C02 "the CONNECT carries what the options say" and C07 "one faithful
+    CONNECT").  Rather than copy the extraction, the owning property's rules are evaluated on the same facts and the selected obligations
+    are re-stated under this property's rule `rule` (same construct, same verdict).  `select(obligation) -> bool`."""
+    import importlib
+    from .. import engine
+    key = (prop, id(ctx.F))
+    if key not in _SUBRUNS:
+        sub = engine.Ctx(prop, ctx.F, ctx.config)
+        mod = importlib.import_module('analysis.rules.' + prop.lower())
+        try:
+            (mod.run if ctx.config == 'all' else getattr(mod, 'run_config', mod.run))(sub)
+        except Exception as e:      # the owning property reports its own crash; here the imported facts are simply unavailable
+            sub.obligations.append({'rule': 'import', 'desc': 'rules of %s could not be evaluated: %s' % (prop, e), 'ok': False, 'key': 'import|%s|crash' % prop, 'loc': None, 'detail': None})
+        _SUBRUNS[key] = sub
+    sub = _SUBRUNS[key]
+    n = 0
+    for o in sub.obligations:
+        if select(o):
+            n += 1
+            ctx.ob(o['ok'], '%s [%s; decided by %s]' % (o['desc'], why, o['rule']), 'from-%s|%s' % (prop, o['key']), loc=o['loc'], rule=rule, detail=o.get('detail'))
+    return n
